@@ -15,7 +15,12 @@ const SP: &str = "\u{E000}";
 const ST: &str = "\u{E001}";
 
 /// expected rendering for (prefix, text id, derive), computed from the sentinel rendering by text substitution
-fn expected_from_base(base: &str, o: &OptSpec) -> Result<String, String> {
+///
+/// `escaped`: the bound names are written as Rust string literals with `\` and `"` escaped. The statement speaks about
+/// the serde names that attributes and text are bound to; the crate writes them between the quotes as they are, a
+/// renderer that escapes them binds the same names (and, unlike the former, stays well-formed for such option values)
+fn expected_from_base(base: &str, o: &OptSpec, escaped: bool) -> Result<String, String> {
+    let lit = |s: &str| if escaped { s.replace('\\', "\\\\").replace('"', "\\\"") } else { s.to_string() };
     let lines: Vec<&str> = base.split('\n').collect();
     let mut out = String::new();
     let mut i = 0;
@@ -34,14 +39,14 @@ fn expected_from_base(base: &str, o: &OptSpec) -> Result<String, String> {
                 let ident = next.strip_prefix("    pub ").and_then(|r| r.split_once(": ")).map(|x| x.0).ok_or("no field line after rename")?;
                 let bound = format!("{}{}", o.prefix, local);
                 if ident != bound {
-                    out.push_str(&format!("    #[serde(rename = \"{}\")]", bound));
+                    out.push_str(&format!("    #[serde(rename = \"{}\")]", lit(&bound)));
                 } else {
                     // the rename line disappears exactly when the bound name equals the identifier
                     i += 1;
                     continue;
                 }
             } else if rest == format!("{}\")]", ST) {
-                out.push_str(&format!("    #[serde(rename = \"{}\")]", o.text_id));
+                out.push_str(&format!("    #[serde(rename = \"{}\")]", lit(&o.text_id)));
             } else {
                 out.push_str(l);
             }
@@ -125,8 +130,13 @@ impl Property for C10 {
         }
         st.sample(|| json!({"case": describe_case(&p), "options": o.json()}));
 
-        let exp = expected_from_base(&base, &o).map_err(|e| Failure::new(e).with_detail(detail("")))?;
-        if exp != actual {
+        let exp = expected_from_base(&base, &o, false).map_err(|e| Failure::new(e).with_detail(detail("")))?;
+        let needs_escape = o.prefix.contains(['"', '\\']) || o.text_id.contains(['"', '\\']);
+        if needs_escape {
+            st.count("option_value_with_quote_or_backslash");
+        }
+        let exp_escaped = if needs_escape { expected_from_base(&base, &o, true).map_err(|e| Failure::new(e).with_detail(detail("")))? } else { exp.clone() };
+        if exp != actual && exp_escaped != actual {
             let la: Vec<&str> = exp.split('\n').collect();
             let lb: Vec<&str> = actual.split('\n').collect();
             let i = (0..la.len().max(lb.len())).find(|i| la.get(*i) != lb.get(*i)).unwrap_or(0);
